@@ -685,7 +685,12 @@ func (e *SpecEnv) evalCall(c *ast.CallExpr) SVal {
 			if t, ok := e.old.H[h]; ok {
 				was = t
 			}
-			cs = append(cs, sEq(cur, was))
+			if cur == was {
+				continue
+			}
+			// objects that existed in the old state are untouched (fresh temporaries do not count)
+			q := g.fresh("o")
+			cs = append(cs, fmt.Sprintf("(forall ((%s Int)) (! (=> (<= %s %s) (= (select %s %s) (select %s %s))) :pattern ((select %s %s))))", q, q, e.old.Alloc, cur, q, was, q, cur, q))
 		}
 		return SVal{S: sAnd(cs...), T: bt, Sort: "Bool"}
 	case "unchanged":
@@ -829,6 +834,13 @@ func (e *SpecEnv) EvalRegion(x ast.Expr) (r Region, err error) {
 		if id, ok := x.Fun.(*ast.Ident); ok && id.Name == "obj" {
 			v := e.eval(x.Args[0])
 			return Region{Obj: pObj(e.ptrOf(v)), Whole: true, Src: src}, nil
+		}
+		if id, ok := x.Fun.(*ast.Ident); ok && id.Name == "alltyped" {
+			t := e.resolveType(x.Args[0])
+			if !g.isHeapType(t) {
+				specFail("alltyped(%v): not declared as heaptype", t)
+			}
+			return Region{TypeID: fmt.Sprint(g.typeID(t)), T: t, Obj: "0", Src: src}, nil
 		}
 	case *ast.SliceExpr:
 		s := e.sliceOf(e.eval(x.X), x)
